@@ -56,3 +56,10 @@ ENTRIES += [
     B('regress-prefilter-judges-parent', "            if not self._fetch_rule.consult_filters(url_info, child_url_record)[0]:", "            if not self._fetch_rule.consult_filters(item_session.request.url_info, child_url_record)[0]:", 'C01-D2', R),
     N('prefilter-verdict-local', "            if not self._fetch_rule.consult_filters(url_info, child_url_record)[0]:\n                continue\n", "            verdict = self._fetch_rule.consult_filters(url_info, child_url_record)[0]\n\n            if not verdict:\n                continue\n", R),
 ]
+
+ENTRIES += [
+    {'id': 'C01/regress-listing-name-unquoted', 'prop': 'C01', 'kind': 'break', 'expect': 'C01-D2', 'edits': [('wpull/processor/ftp.py',
+      "                    linked_url = urljoin_safe(base_url, name)\n", "                    linked_url = urljoin_safe(base_url, file_entry.name)\n")]},
+    {'id': 'C01/benign-listing-name-quoted-inline', 'prop': 'C01', 'kind': 'benign', 'edits': [('wpull/processor/ftp.py',
+      "                    linked_url = urljoin_safe(base_url, name)\n", "                    linked_url = urljoin_safe(base_url, urllib.parse.quote(file_entry.name, safe='', errors='surrogateescape'))\n")]},
+]
